@@ -2,6 +2,7 @@
 package c13
 
 import (
+	"github.com/apache/skywalking-banyandb/banyand/internal/verif/simknobs"
 	"context"
 	"errors"
 	"fmt"
@@ -260,6 +261,9 @@ var advances = []time.Duration{500 * time.Millisecond, 2 * time.Second, 6 * time
 
 func runNoSampler(e *simcore.Env, tp *simcore.Tape) {
 	synctest.Test(e.T, func(*testing.T) {
+		knobDesc, knobRestore := simknobs.Draw(tp, "trace", "sidx")
+		defer knobRestore()
+		e.Event("%s", knobDesc)
 		s := wl.GenTraceSchema(tp, wl.TraceSchemaOpts{})
 		repo := simmeta.New()
 		s.Install(repo)
@@ -737,6 +741,9 @@ var gateSites = []string{
 // oracles, but merge goroutines are held at gate sites and released in tape-chosen order, with writes in between.
 func runSampler(e *simcore.Env, tp *simcore.Tape, gated bool) {
 	synctest.Test(e.T, func(*testing.T) {
+		knobDesc, knobRestore := simknobs.Draw(tp, "trace", "sidx")
+		defer knobRestore()
+		e.Event("%s", knobDesc)
 		var gatesOn atomic.Bool
 		armed := map[string]bool{}
 		if gated {
